@@ -918,6 +918,7 @@ func registerAll() {
 	gen("prefix", genPrefix)
 	gen("streams", genStreams)
 	gen("cron", genCron)
+	gen("blank", genBlank)
 	gen("scaling", genScaling)
 }
 
